@@ -734,6 +734,7 @@ func (pl *plan) build() {
 	pl.streams = append(pl.streams, exprTypedStream())
 	pl.streams = append(pl.streams, exprSectionStream())
 	pl.streams = append(pl.streams, runScriptStream())
+	pl.streams = append(pl.streams, configGlobStream())
 	// (iii) byte level, all four channels
 	per := 70
 	if !quick {
@@ -1086,6 +1087,40 @@ func runScriptStream() *Stream {
 	return &Stream{Name: "run-scripts", N: len(scripts), Get: func(i int) *Case {
 		src := "on: push\njobs:\n  j:\n    runs-on: ubuntu-latest\n    steps:\n      - run: " + yamlDQ(scripts[i]) + "\n      - run: |\n          " + strings.ReplaceAll(scripts[i], "\n", "\n          ") + "\n"
 		return &Case{Stream: "run-scripts", Idx: i, Channel: chWorkflow, Data: []byte(src), Desc: fmt.Sprintf("run: script %q", scripts[i])}
+	}}
+}
+
+// `paths` globs of the configuration that are built from the path of the linted workflow
+// (.github/workflows/test.yml): every character doubled into an alternation {c,c}, with and
+// without a mismatch at the end; n = number of alternation groups
+func configGlobStream() *Stream {
+	path := ".github/workflows/test.yml"
+	mk := func(n int, tail string) []byte {
+		var b strings.Builder
+		for i, c := range path {
+			if i < n {
+				fmt.Fprintf(&b, "{%c,%c}", c, c)
+			} else {
+				b.WriteRune(c)
+			}
+		}
+		return []byte("paths:\n  \"" + b.String() + tail + "\":\n    ignore: []\n")
+	}
+	var cfgs [][]byte
+	var desc []string
+	ns := []int{4, 12, 20, 24}
+	if *fTier == "thorough" {
+		// (2^n steps: 24 groups take seconds, 32 do not finish within the limit of a case)
+		ns = append(ns, 32)
+	}
+	for _, n := range ns {
+		for _, tail := range []string{"", "X"} {
+			cfgs = append(cfgs, mk(n, tail))
+			desc = append(desc, fmt.Sprintf("%d alternation groups {c,c} over the path of the workflow, tail %q", n, tail))
+		}
+	}
+	return &Stream{Name: "config-globs", N: len(cfgs), Get: func(i int) *Case {
+		return &Case{Stream: "config-globs", Idx: i, Channel: chConfig, Data: cfgs[i], Desc: "configuration whose paths glob has " + desc[i]}
 	}}
 }
 
